@@ -80,7 +80,7 @@ HARNESSES = [
      "quick_cases": ["trunc:P1", "junk", "corrupt:P2:214", "corrupt:P9:pe", "trunc:P5"], "opt": True, "timeout": {"quick": 90, "thorough": 300}},
     {"fn": "h_plugin", "cases": ["count0", "count1", "count2", "count3", "body"], "quick_cases": ["count0", "count3"],
      "timeout": {"quick": 120, "thorough": 400}},
-    {"fn": "h_dir", "cases": ["after-good", "before-good", "two-bad:a", "two-bad:j", "two-bad:l"], "timeout": {"quick": 120, "thorough": 400}},
+    {"fn": "h_dir", "cases": ["after-good", "before-good", "two-bad:a", "two-bad:j", "two-bad:l", "two-bad:n"], "timeout": {"quick": 120, "thorough": 400}},
     {"fn": "h_text_progress", "cases": ["text", "json"], "timeout": {"quick": 90, "thorough": 300}},
 ]
 BOUNDS = {"short": "all byte strings of length <= 24; 'PH' + 2 symbolic length bytes + 20 symbolic bytes",
@@ -350,7 +350,7 @@ def h_dir() -> bool:
     from vlib.stubs import World, Namespace, ARG_DEFAULTS, run_main
     good = pb.PEL(pb.SRC(ascii=b"BD8D1111"), ph=dict(eid=0x50000011))
     full = cat("P2")
-    t = sym_int("t", 200, 230)
+    t = sym_int("t", 200, 230) if not CASE.endswith(":n") else 200      # (count mode has its own cut, t2)
     bad = None
     for cand in range(200, 231):
         if t == cand:
@@ -361,7 +361,16 @@ def h_dir() -> bool:
     if CASE.startswith("two-bad"):
         # several damaged files in one directory: still an ordinary run (exit status 0), one diagnostic per file
         files = [("a_bad", bad), ("b_good", good), ("c_bad", full[:100]), ("d_bad", b"")]
-        mode = {"a": dict(all=True), "j": dict(json=True, output_dir="/out"), "l": dict(list=True)}[CASE.split(":")[1]]
+        mode = {"a": dict(all=True), "j": dict(json=True, output_dir="/out"), "l": dict(list=True),
+                "n": dict(show_pel_count=True)}[CASE.split(":")[1]]
+        if mode.get("show_pel_count"):
+            # count mode reads the two headers only (72 bytes): a file cut inside them is not a PEL and is not counted
+            t2 = sym_int("t2", 0, 71)
+            bad2 = None
+            for cand in range(72):
+                if t2 == cand:
+                    bad2 = full[:cand]
+            files = [("a_bad", bad2), ("b_good", good), ("d_bad", b"")]
     w = World(files=files, dirs=["/out"])
     ns = Namespace(**dict(ARG_DEFAULTS, path="/pels", reverse=rev, every_pel=True, skip_plugins=True, **mode))
     from vlib.stubs import WorldUnsupported
@@ -373,6 +382,10 @@ def h_dir() -> bool:
     except BaseException as e:
         return verdict(False, obs={"escaped": repr(e)})
     if CASE.startswith("two-bad") and not mode.get("all"):
+        if mode.get("show_pel_count"):
+            outs = [o for o in w.stdout()]
+            return verdict(sym_all([status == 0, len(outs) == 1 and str(outs[0]) == '{\n    "Number of PELs found": 1\n}', len(w.stderr()) >= 1]),
+                           obs={"status": status, "stdout": [str(o) for o in outs]})
         if mode.get("json"):
             docs = [e[2].obj for e in w.events if e[0] == "write" and hasattr(e[2], "obj")]
             ok = len(docs) == 1 and docs[0]["Private Header"]["Entry Id"] == "0x50000011"
